@@ -8,9 +8,15 @@ HOOK_COMMITS = subprocess.run(["git", "-C", "/repo", "log", "--format=%H", "--gr
 
 # id -> (technique, level text, level note, design ref)
 CHECKS = {
+ "C01": ("exhaustive enumeration of all well-typed programs up to a node bound x every witness assignment, encode/decode/re-encode on the real nodes, plus an independent bit-level codec decoding the bytes to a structurally computed maximal-sharing quotient",
+         "Every 1->1 program among all canonical DAGs with <=5 (thorough 6) nodes over a 20-symbol alphabet (witness, disconnect with/without branch, assertions with hidden CMRs, fail, words, a jet), Core and Elements, commitment form and redemption form with every witness assignment of <=4-bit types (corner values above); roots, per-node kinds/arrows/roots, witness bits per node, byte-identical re-encoding; the reference codec must parse the bytes to exactly the expected node list.",
+         "Trusts the reference codec and the structural sharing quotient; jet code words are atoms. Programs above the node bound and wide witnesses beyond corner values are not explored.", "5/C01"),
  "C04": ("exhaustive enumeration of all canonical combinator DAGs up to a node bound x every topological construction order, each run through the real ConstructNode API in a fresh context and judged by a textbook unifier",
          "All DAGs with <=5 (thorough 6; 7 over a reduced 8-symbol alphabet) nodes over an 18-symbol alphabet (well-typed or not, every sharing pattern), as program and as expression, in every linear extension of the dependency order; every Core and Elements jet as a typed leaf in all DAGs of <=3 nodes; pair-doubling macro-cases (up to 100 doublings) for termination, memory and displayability of errors. Verdict, every node's arrow and order-independence are compared on every case.",
          "Trusts the 60-line Robinson unifier and the typing rules as transcribed; DAGs above the node bound are only covered by the doubling macro-cases.", "5/C04"),
+ "C09": ("explicit-state breadth-first search over the conversion graph of node kinds (state = history replayed on fresh real objects, canonical key = representation + hidden set + branch attachment) with the CMR invariant checked in every state; exhaustive re-hashing of every node of every constructible DAG from tag strings; exhaustive hiding of every node; population-wide injectivity",
+         "All constructible DAGs with <=5 nodes (Core: 23-symbol alphabet; Elements: 18): every node's CMR equals SHA-256 compression over IVs recomputed from the tag strings, before and after inference, and the root is unchanged by hiding any node (thorough: any pair). For every program with <=4/5 nodes a BFS of depth 4/5 over 14 transitions (finalize_types, finalize_unpruned, CommitNode::finalize, unfinalize, unfinalize_types, to_construct_node, Named round trip, encode/decode, change witness, attach/detach branches, hide case children). Injectivity over all constructible DAGs with <=4/5 nodes.",
+         "Trusts the from-scratch SHA-256 and the published CMR formulas; jet CMRs are atoms here. No cryptographic claim beyond the enumerated population.", "5/C09"),
  "C10": ("exhaustive enumeration of (type, value, production history) triples and prune targets, judged by reference type/value trees",
          "Every type with <=3/4 constructors plus word/option/buffer types, every value (corner values above 4096), 17 production histories including sub-value extraction at every bit offset from dirty buffers, every prune target with <=2/3 constructors and every two-step chain. Complete within those bounds.",
          "Trusts the reference enum trees (width, padding, compact/padded bits by the Tech Report definitions). Wide types only on corner values.", "5/C10"),
